@@ -124,7 +124,7 @@ def eval_case(ctx, case):
             if res.exit != 0:
                 V("abort", f"nested create exit {res.exit} {res.exc}")
                 return v, stats
-        res, post = ops.run_cmd(ctx, t, ops.create("", fmts, i=pats), now + 10, order=case.get("order"))
+        res, post = ops.run_cmd(ctx, t, ops.create("", fmts, i=pats, spell=case.get("spell")), now + 10, order=case.get("order"))
         stats["cmds"] += 1
         if res.exit != (11 if case.get("alter") else 0) or res.exc:
             V("abort", f"create exit {res.exit} {res.exc}\n{res.err[-300:]}")
@@ -269,6 +269,8 @@ def main(tier, seed):
             cases.append({"tree": zt, "fmts": fs, "meta": True})
     for st in SPECIAL_TREES:
         cases.append({"tree": st, "fmts": ["c4", "c4", "md5"]})
+        for sp in ("slash", "slashdot", "dot", "rel"):   # the root folder as a user may spell it
+            cases.append({"tree": st, "fmts": ["md5", "xxh64"], "spell": sp})
         for fs in ([["md5"], ["c4"], list(ref.FORMATS_CLI)]):
             cases.append({"tree": st, "fmts": fs, "meta": len(fs) == 1})
             cases.append({"tree": st, "fmts": fs, "order": "reversed"})
